@@ -91,10 +91,10 @@ def run_unit(unit):
     ns = loader.load()
     from tpmstream.io.auto import Auto
     from tpmstream.io.hex import Hex
-    from tpmstream.io.hex.marshal import parse_hex_string as hex_scan
+    hex_scan = impl.find_scanner("tpmstream.io.hex.marshal")
     from tpmstream.io.pcapng import Pcapng
     from tpmstream.io.swtpm_log import SWTPMLog
-    from tpmstream.io.swtpm_log.marshal import parse_hex_string as sw_scan
+    sw_scan = impl.find_scanner("tpmstream.io.swtpm_log.marshal")
 
     if unit["kind"] == "product":
         scan, ref = (hex_scan, text.RefHex) if unit["scanner"] == "hex" else (sw_scan, text.RefSwtpm)
